@@ -96,6 +96,10 @@ func compsOf(t types.Type) []Comp {
 
 // installBases creates fresh base arrays (named by tag) for every component of key and attaches well-typedness axioms
 func (x *Exec) installBases(st *State, key string, t types.Type, tag string) []*HArr {
+	return x.installBasesA(st, key, t, tag, st.alloc)
+}
+
+func (x *Exec) installBasesA(st *State, key string, t types.Type, tag string, al string) []*HArr {
 	cs := compsOf(t)
 	hs := make([]*HArr, len(cs))
 	for i, c := range cs {
@@ -105,7 +109,6 @@ func (x *Exec) installBases(st *State, key string, t types.Type, tag string) []*
 		hs[i] = &HArr{key: k, sort: c.Sort, base: base}
 		st.heap[k] = hs[i]
 	}
-	al := st.alloc
 	for i := 0; i < len(cs); i++ {
 		c := cs[i]
 		if c.Role == "arr" {
@@ -136,7 +139,7 @@ func (x *Exec) harrs(st *State, key string, t types.Type) []*HArr {
 		return nil
 	}
 	if _, ok := st.heap[key+cs[0].Suffix]; !ok {
-		return x.installBases(st, key, t, fmt.Sprintf("@%d", st.epoch))
+		return x.installBasesA(st, key, t, fmt.Sprintf("@%d", st.epoch), st.epochAlloc)
 	}
 	hs := make([]*HArr, len(cs))
 	for i, c := range cs {
@@ -179,8 +182,11 @@ func (x *Exec) subRef(st *State, owner types.Type, field string, ref string) str
 	x.decls.Fun("subtag", []string{"Int"}, "Int")
 	id := x.tagID(tag)
 	t := "(" + tag + " " + ref + ")"
-	// instance facts: negative, invertible, tagged
-	st.assume(sAnd(sLt(t, "0"), sEq("("+tag+".inv "+t+")", ref), sEq("(subtag "+t+")", sInt(int64(id)))))
+	// instance facts (instantiated for every ground application at render time): negative, invertible, tagged
+	x.decls.Pat("app:"+tag, func(args []string) string {
+		a := "(" + tag + " " + args[0] + ")"
+		return sAnd(sLt(a, "0"), sEq("("+tag+".inv "+a+")", args[0]), sEq("(subtag "+a+")", sInt(int64(id))))
+	})
 	return t
 }
 
@@ -322,7 +328,7 @@ func (x *Exec) lazyFor(st *State, et types.Type) *Lazy {
 		x.decls.Const(b, "(Array Int (Array Int "+c.Sort+"))")
 		l.base[i] = b
 	}
-	x.elemBaseFacts(l.base, cs, st.alloc)
+	x.elemBaseFacts(l.base, cs, st.epochAlloc)
 	st.lazy[key] = l
 	return l
 }
@@ -435,6 +441,7 @@ func (x *Exec) havocAll(st *State) {
 	st.lazy = map[string]*Lazy{}
 	st.hv++
 	x.bumpAlloc(st)
+	st.epochAlloc = st.alloc
 }
 
 func (x *Exec) bumpAlloc(st *State) {
@@ -487,8 +494,11 @@ func (x *Exec) mapValArr(st *State, mt types.Type, c Comp) *HArr {
 	h := &HArr{key: key, sort: srt, base: base}
 	st.heap[key] = h
 	// value well-typedness
-	if x.rangeFact("t", c, st.alloc) != "true" && c.Role == "" {
-		al := st.alloc
+	if x.rangeFact("t", c, st.epochAlloc) != "true" && c.Role == "" {
+		al := st.epochAlloc
+		if st.epoch < 0 {
+			al = st.alloc
+		}
 		x.decls.Pat("sel2:"+base, func(args []string) string { return x.rangeFact(sSel(sSel(base, args[0]), args[1]), c, al) })
 	}
 	return h
@@ -663,5 +673,55 @@ func (x *Exec) strbyteFacts() {
 	x.decls.Pat("app:strbyte", func(args []string) string {
 		t := "(strbyte " + args[0] + " " + args[1] + ")"
 		return sAnd(sLe("0", t), sLe(t, "255"))
+	})
+}
+
+// ---------- abstract content of byte slices ----------
+
+type originInfo struct {
+	val string
+	t   types.Type
+	n   int64
+}
+
+// contentOf gives the abstract content key (sort Val) of a slice.  For a slice made by slicing an array value it is an
+// injective function of that value; otherwise it is a function of (array, offset, length) -- assumption A-BYTES: slices whose
+// contents are compared or used as keys are not mutated in between (true for hashes, signatures and node ids).
+func (x *Exec) contentOf(st *State, s Val) string {
+	if s.K != KSlice {
+		panic(oos("content of %s value", kindName(s.K)))
+	}
+	if o, ok := x.arrOrigin[s.Arr]; ok && s.Off == "0" && s.Len == sInt(o.n) {
+		fn := "arrcontent." + typeName(o.t)
+		x.decls.Fun(fn, []string{"Val"}, "Val")
+		x.decls.Fun(fn+".inv", []string{"Val"}, "Val")
+		t := "(" + fn + " " + o.val + ")"
+		x.injective(fn)
+		return t
+	}
+	x.decls.Fun("content", []string{"Int", "Int", "Int"}, "Val")
+	x.note("A-BYTES: byte slices that are compared (bytes.Compare/Equal) or converted to map keys are treated as immutable values")
+	return x.decls.Define("content", "Val", "(content "+s.Arr+" "+s.Off+" "+s.Len+")")
+}
+
+func (x *Exec) contentEq(st *State, a, b Val) string {
+	oa, okA := x.arrOrigin[a.Arr]
+	ob, okB := x.arrOrigin[b.Arr]
+	if okA && okB && a.Off == "0" && b.Off == "0" && a.Len == sInt(oa.n) && b.Len == sInt(ob.n) {
+		if oa.n != ob.n {
+			return "false"
+		}
+		return sEq(oa.val, ob.val)
+	}
+	eq := sEq(x.contentOf(st, a), x.contentOf(st, b))
+	// equal contents have equal lengths
+	st.assume(sImp(eq, sEq(a.Len, b.Len)))
+	return eq
+}
+
+// injective registers the instance fact inv(f(v)) = v for every ground application of the unary function f
+func (x *Exec) injective(fn string) {
+	x.decls.Pat("app:"+fn, func(args []string) string {
+		return sEq("("+fn+".inv ("+fn+" "+args[0]+"))", args[0])
 	})
 }
